@@ -196,8 +196,17 @@ def assemble_log_prior(genotype, n_haplotypes, inbreeding=0.0):
     if inbreeding == 0:
         return lgamma(ploidy + 1) - sum(lgamma(c + 1) for c in d.values()) - ploidy * math.log(n_haplotypes)
     scale = (1.0 - inbreeding) / inbreeding
-    al = scale / n_haplotypes
     A = scale
+    if n_haplotypes > 10**6:
+        # long loci: the per-haplotype dispersion is tiny (it may even leave the double range); rising factorials in log space,
+        # Gamma(c + al) / Gamma(al) = al (al + 1) ... (al + c - 1), are exact algebra and need no difference of large lgamma values
+        log_al = math.log(scale) - math.log(n_haplotypes)
+        al = math.exp(log_al)
+        out = lgamma(ploidy + 1) - sum(math.log(A + i) for i in range(ploidy))
+        for c in d.values():
+            out += log_al + sum(math.log(al + i) for i in range(1, c)) - lgamma(c + 1)
+        return out
+    al = scale / n_haplotypes
     out = lgamma(ploidy + 1) + lgamma(A) - lgamma(ploidy + A)
     for c in d.values():
         out += lgamma(c + al) - lgamma(c + 1) - lgamma(al)
